@@ -571,6 +571,12 @@ def check_paths(exe, verdict, seed):
          "file %s %s" % (hx(root + "/t1/etc/p.conf.d/x.conf"), hx("j=1\n")),
          "readdirs 8 %s %s %s %s x3d x23" % (hx(root + "/t1/usr"), hx(root + "/t1/etc"), hx("p"), hx("conf")), "path 8",
          "chdir /"] + ["free %d" % i for i in range(1, 9)]
+    # relative names with several components: `.`, `..`, a symbolic link to a directory, a symbolic link to the file
+    rel = ["sub/../sub/a.conf", "sub/./a.conf", "./sub/../b.conf", "lnk/a.conf", "sub/deep/../../lnk/a.conf", "sub/la.conf", "lnk/../b.conf", "sub//a.conf"]
+    s += ["mkdir %s" % hx(root + "/sub/deep"), "symlink %s %s" % (hx("sub"), hx(root + "/lnk")), "symlink %s %s" % (hx("a.conf"), hx(root + "/sub/la.conf")), "chdir %s" % hx(root)]
+    for n, nm in enumerate(rel):
+        s += ["readfile %d %s x3d x23" % (10 + n, hx(nm)), "path %d" % (10 + n), "ext %d - %s" % (10 + n, hx("k" if nm.endswith("a.conf") else "j")), "free %d" % (10 + n)]
+    s.append("chdir /")
     out = core.run_cases(exe, [("paths", s)], jobs=1)["paths"]
     if out["crash"]:
         verdict.violation("C17:path:crash", {"script": s, "crash": out["crash"]}, "path scenario crashed:\n" + out["crash"][:800])
@@ -589,7 +595,17 @@ def check_paths(exe, verdict, seed):
     for h in (1, 2):
         if exts.get(h) not in (want[h], want[h].replace(root, real)):
             verdict.violation("C17:extfile:%d" % h, {"script": s, "got": exts.get(h)}, "extended value file %r, expected %r" % (exts.get(h), want[h]))
-    return len(want)
+    # (the property asks for AN absolute path of the file, not for a canonical one: absolute, and naming the file that was read)
+    for n, nm in enumerate(rel):
+        for what, g in (("econf_getPath", paths.get(10 + n)), ("extended value file", exts.get(10 + n))):
+            good = isinstance(g, str) and g.startswith("/")
+            try:
+                good = good and os.path.samefile(g, os.path.join(root, nm))
+            except OSError:
+                good = False
+            if not good:
+                verdict.violation("C17:path:relative", {"script": s, "name": nm, "got": g}, "%s for the relative name %r: %r is not an absolute path of that file" % (what, nm, g))
+    return len(want) + len(rel)
 
 
 # ----- C05: comment lines are inert -----
